@@ -126,7 +126,8 @@ class CompilerWorld:
 
         # line numbers are not the subject here
         eng.allow_havoc(r'^(compiler::)?(ir::)?(token::)?Token::(str|kind|new)$', r'^(compiler::)?(ir::)?(ast::|token::)?\w+::(start|end|span)$', r'^<.* as (compiler::)?(ir::)?(ast::)?Spanned>::(start|end|span)$',
-                        r'^(source::)?(files::)?LineOffsets::\w+$', r'^(std|alloc|core)::fmt::', r'^format$', r'^must_use$')
+                        r'^(source::)?(files::)?LineOffsets::\w+$', r'^(std|alloc|core)::fmt::', r'^format$', r'^must_use$', r'Arguments::',
+                        r'^(compiler::)?(ir::)?(ast::)?InstanceAccess::property$')
 
 
 def variant_name(e, ins):
